@@ -113,7 +113,7 @@ CLAIMED.update({
              "runs on a real directory with a pickle.loads spy, by cached-vs-uncached program runs over shared backends, and by pause / answer "
              "histories over a cache=True interrupt.",
         design_ref="DESIGN.md section 5 C09",
-        note="Definition hashes (hash_definition: source, bytecode, captured values, bound receivers) are decided by oracle families only, not modelled. "
+        note="Oracle families beyond the model: functions differing only in the names they call, arguments that compare equal but differ (1 / 1.0 / True, 0.0 / -0.0), one bit flipped in cache.db where the bytes live. Definition hashes (hash_definition: source, bytecode, captured values, bound receivers) are decided by oracle families only, not modelled. "
              "SHA-256 / HMAC are idealised as injective tagging, and forged signatures are excluded (op_ok) — Section hypotheses, not "
              "axioms; diskcache/SQLite single-write atomicity and 'no exception' are runtime behaviour, covered by the fault enumeration.",
         technique="Coq proof (invariants over LRU / disk operation histories; per-call cache refinement) + fault enumeration on real backends",
@@ -155,7 +155,7 @@ CLAIMED.update({
              "Tied to /repo by making each node of generated programs (flat, gated, cyclic, nested to depth 3) raise a fresh exception "
              "object and checking identity (`is`), FAILED values against the failure-free run, and the model's partial state.",
         design_ref="DESIGN.md section 5 C11",
-        note="'Only values of nodes that completed' is the provenance theorem C11_partial_provenance / C11_no_unfinished_output (under the "
+        note="The failing node may be a gate (its routing function raises). 'Only values of nodes that completed' is the provenance theorem C11_partial_provenance / C11_no_unfinished_output (under the "
              "executor contract that a node returns values for its declared outputs only). Exception identity itself is Python runtime behaviour (checked, not modelled: err ids); map-level propagation is covered by "
              "C10; interrupt handlers' exceptions are wrapped in RuntimeError by the implementation (known finding F-c, pinned by a repository test).",
         technique="Coq proof (characterisation of failing supersteps and of the nested executor) + fault enumeration over nodes",
@@ -192,7 +192,7 @@ CLAIMED.update({
              "decision list leaves every pre-existing object unchanged under any processor actions, and refutes the aliased event; every program is "
              "also run beside a payload-emptying processor.",
         design_ref="DESIGN.md section 5 C13",
-        note="That no dispatch site outside the dispatcher lets an exception escape is exactly what the fault enumeration over the real code "
+        note="Half of the failing processors are unhashable objects (plain dataclass processors). That no dispatch site outside the dispatcher lets an exception escape is exactly what the fault enumeration over the real code "
              "checks; the model covers emit/emit_async/shutdown/shutdown_async.",
         technique="Coq proof (dispatcher model) + exhaustive fault enumeration over event indices",
     ),
@@ -274,7 +274,7 @@ CLAIMED.update({
              "kept 'cold', i.e. without the harness's own cache fills), run results compared at creation and at the end, and the model's result "
              "locations and final views compared with the real objects.",
         design_ref="DESIGN.md section 5 C07",
-        note="Argument validation of bind/select/with_entrypoint is not modelled (failing calls are oracle-checked only); the structure hash and run "
+        note="Oracle additions: every graph snapshot's runs are repeated with a run-time selection (what one relative remembers per selection must not reach another), and every nested-graph node is also observed through a derivation made at snapshot time. Argument validation of bind/select/with_entrypoint is not modelled (failing calls are oracle-checked only); the structure hash and run "
              "results are oracle-only.",
         technique="Coq proof (heap frame invariant by induction over operation histories) + history oracle and differential correspondence",
     ),
